@@ -265,7 +265,7 @@ class HeterogeneousLinearModel(darsia.Model):
 
         """
         # Potentially need to resize labels.
-        if img.shape != self.cached_labels:
+        if img.shape[:2] != self.cached_labels.shape[:2]:
             self.cached_labels = cv2.resize(
                 self.labels,
                 tuple(reversed(img.shape[:2])),
